@@ -29,9 +29,9 @@ type FileSpec struct {
 	LongLine int          `json:"long_line,omitempty"` // a comment line of that many bytes before import number (LongLine-1)
 	// Layout varies how the same import statements are written (bits 0-1: what follows the keyword - blank, tab, two
 	// blanks, blank and tab; 4: the first line of the file is indented; 8: lines of white space only and indented
-	// comments between the statements; 16: later lines that start with the word import without being statements)
-	Layout int `json:"layout,omitempty"`
-	Text     string       `json:"text"`                // delivered content (after content faults)
+	// comments between the statements; 16: later lines that start with the word import without being statements; 32: the first application's name starts with the letters import)
+	Layout int    `json:"layout,omitempty"`
+	Text   string `json:"text"` // delivered content (after content faults)
 }
 
 // Fault is one entry of the fault plan.
@@ -288,7 +288,7 @@ func Gen(seed uint64, faulty bool) *Workload {
 	if r.Chance(0.3) {
 		for _, f := range w.Files {
 			if f.Kind == "sysl" && r.Chance(0.6) {
-				f.Layout = r.Intn(32)
+				f.Layout = r.Intn(64)
 				f.Text = render(w, f)
 			}
 		}
@@ -567,6 +567,10 @@ paths:
 	}
 	if len(f.Imports) > 0 {
 		b.WriteString("\n")
+	}
+	if f.Layout&32 != 0 {
+		// the keyword needs white space behind it: importer is a name
+		fmt.Fprintf(&b, "importer%d:\n    E:\n        ...\n\n", f.ID)
 	}
 	if f.Layout&16 != 0 {
 		// after the first application import is an ordinary word
